@@ -218,7 +218,8 @@ def subPat : List Tok → Str
   | .ch c :: r => c :: subPat r
   | .field f :: r => "(?P<".toList ++ f.fname ++ ">.+)".toList ++ subPat r
 
-def patText (raw : Str) : Str := '^' :: subPat (tokens (escapeRe raw)) ++ ['$']
+/-- `'^' + pattern_text + r'\Z'` (fix c86a3b1, F50: `\Z`, not `$`, which also matches before a segment-final line feed) -/
+def patText (raw : Str) : Str := '^' :: subPat (tokens (escapeRe raw)) ++ ['\\', 'Z']
 
 /-! ### identities of raw segment texts as numbers (`Ri.Seg.raw`, `Ri.Seg.shape` are numbers) -/
 
